@@ -95,6 +95,21 @@ Section C08.
       exists l1 l2, entries s = l1 ++ l2 /\ entries s' = l1 ++ (k, v) :: l2.
   Proof. exact (step_insert_new ck ok s k v it). Qed.
 
+  (** the hint is what makes the second walk unnecessary: an insert calls the
+      user comparison as often as the find does, plus exactly once more when
+      a node is linked into a non-empty tree ([op_cmps]: number of comparator
+      calls of the operation as transcribed; compared with the C code's count
+      by the correspondence run) *)
+  Theorem C08_insert_hint_cost s k v it :
+    map_inv s ->
+    op_cmps ck ok s (MInsert k v it) =
+    (find_cmps (mt s) (ck k) +
+     match alookup (entries s) k with
+     | Some _ => 0
+     | None => if grant ok (mal s) NODE_SIZE then (match mt s with E => 0 | _ => 1 end) else 0
+     end)%nat.
+  Proof. exact (op_cmps_insert ck ok s k v it). Qed.
+
   (** insert of a new key when the allocation fails: -1, end iterator; tree,
       size and node memory are untouched and so are the live blocks; only the
       heap's request counter and event log record the failed request *)
@@ -222,6 +237,7 @@ Print Assumptions C08_lookup_unique.
 Print Assumptions C08_step_refines.
 Print Assumptions C08_insert_existing_untouched.
 Print Assumptions C08_insert_new.
+Print Assumptions C08_insert_hint_cost.
 Print Assumptions C08_insert_alloc_failure.
 Print Assumptions C08_find.
 Print Assumptions C08_erase_present.
